@@ -21,7 +21,6 @@
 package zapcore
 
 import (
-	"bytes"
 	"errors"
 	"fmt"
 )
@@ -171,10 +170,25 @@ func (l *Level) UnmarshalText(text []byte) error {
 	if l == nil {
 		return errUnmarshalNilLevel
 	}
-	if !l.unmarshalText(text) && !l.unmarshalText(bytes.ToLower(text)) {
+	if !l.unmarshalText(text) && !l.unmarshalText(asciiToLower(text)) {
 		return fmt.Errorf("unrecognized level: %q", text)
 	}
 	return nil
+}
+
+// asciiToLower returns a copy of text with the ASCII letters A-Z mapped to
+// lower case. Level names are ASCII, so unlike bytes.ToLower it leaves every
+// other byte alone: text such as "\u0130NFO", whose Unicode lower-casing is
+// "info", is not a level name.
+func asciiToLower(text []byte) []byte {
+	lower := make([]byte, len(text))
+	for i, c := range text {
+		if 'A' <= c && c <= 'Z' {
+			c += 'a' - 'A'
+		}
+		lower[i] = c
+	}
+	return lower
 }
 
 func (l *Level) unmarshalText(text []byte) bool {
